@@ -10,8 +10,10 @@ the observer notifiers; both must see the same arguments.  Exhaustive single
 operations on dicts of size 0..3 over an 8-key universe, then random 20-op
 histories.  See DESIGN.md section 4 / C06.
 """
+import copy
 import itertools
 import operator
+import pickle
 
 from traits.api import HasTraits, Any, CInt, Dict, Instance, TraitError
 from traits.trait_dict_object import TraitDict
@@ -28,9 +30,14 @@ META = {
              "position), a keys()/__getitem__-only mapping, the dict itself and malformed "
              "arguments; 8-key universe plus an unhashable key; 0..2 observe('<name>.items') "
              "handlers with a second raw notifier before / between / after the observer "
-             "notifiers. Exhaustive over all start dicts of size 0..3 x all single operations of "
+             "notifiers; and, for the bare flavours, dicts nobody listens to (built without "
+             "notifiers, or obtained by copy.copy / copy.deepcopy / pickle protocol 0..5, which "
+             "drop the notifiers and keep the validators), judged on contents, return value, "
+             "exception class and failure atomicity only. "
+             "Exhaustive over all start dicts of size 0..3 x all single operations of "
              "that grid, plus random 20-op histories in three strata (plain, setdefault through "
-             "a coercing key validator, raw notifier after an observer). distinct_nontrivial "
+             "a coercing key validator, raw notifier after an observer), 40% of the bare ones "
+             "switching to a copy of the dict at a random step. distinct_nontrivial "
              "counts distinct (flavour, op, argument shape, outcome class, event shape, "
              "observer configuration) signatures of cases in which the dict changed, an event "
              "was emitted or an exception was raised."),
@@ -39,11 +46,18 @@ META = {
         "quick": {"evaluations": 220000, "events_checked": 90000, "failures_checked": 85000,
                   "observer_events_checked": 80000, "history_ops": 70000,
                   "raw_pairs_compared": 170000, "raw_after_observer_compared": 95000,
-                  "exhaustive_cases": 150000},
+                  "exhaustive_cases": 150000,
+                  # dicts nobody listens to (never had a notifier, or a fresh copy)
+                  "silent_evaluations": 75000, "silent_failures_checked": 30000,
+                  "silent_bulk_rejections_checked": 20000, "copies_continued": 30000,
+                  "ops_on_copies": 45000, "exhaustive_silent_cases": 60000},
         "thorough": {"evaluations": 2000000, "events_checked": 1000000, "failures_checked": 500000,
                      "observer_events_checked": 800000, "history_ops": 1800000,
                      "raw_pairs_compared": 1400000, "raw_after_observer_compared": 250000,
-                     "exhaustive_cases": 150000},
+                     "exhaustive_cases": 150000,
+                     "silent_evaluations": 500000, "silent_failures_checked": 130000,
+                     "silent_bulk_rejections_checked": 55000, "copies_continued": 65000,
+                     "ops_on_copies": 450000, "exhaustive_silent_cases": 60000},
     },
     "exhaustive_parts": "all single operations of the grid in `rule` on every start dict of size "
                         "0..3 over the validated key universe of each flavour",
@@ -63,6 +77,9 @@ class V:
 
     def __repr__(self):
         return "v%d" % self.n
+
+    def __reduce__(self):                      # __slots__: protocols 0/1 need this
+        return (V, (self.n,))
 
 
 BADK = "BADK"
@@ -170,8 +187,12 @@ OBS_CONFIGS = [(0, "first"), (1, "first"), (1, "last"), (2, "mid"), (2, "last"),
 class Env:
     """One dict under test with its recorders."""
 
-    def __init__(self, flavour, pairs, n_obs, slot, ctor_notifier=False):
+    def __init__(self, flavour, pairs, n_obs, slot, ctor_notifier=False, silent=False, td=None):
+        """silent: no notifier of any kind is ever attached (`notifiers` stays
+        empty); td: wrap an existing TraitDict (a copy) instead of building one."""
         self.flavour = flavour
+        self.silent = silent
+        self.copied = td is not None
         self.raw1, self.raw2 = [], []
         self.obs_logs = [[] for _ in range(n_obs)]
         self.n_obs = n_obs
@@ -186,6 +207,19 @@ class Env:
             self.raw2.append((d is self.td, dict(removed), dict(added), dict(changed)))
 
         pre = False
+        if silent or td is not None:
+            assert flavour != "tdo" and not n_obs
+            if td is None:
+                kw = {}
+                if flavour != "none":
+                    kw = {"key_validator": KV[flavour], "value_validator": VV[flavour]}
+                td = TraitDict(dict(pairs), **kw)
+            self.td = td
+            self.has_raw2 = self.after_observer = False
+            self.observers_hooked = 0
+            if not silent:
+                td.notifiers.insert(0, rec1)
+            return
         if flavour == "tdo":
             self.root = Holder(d=dict(pairs))
             self.td = self.root.d
@@ -543,7 +577,19 @@ def check_one(ctx, env, model, op):
     changed = not dict_same(before_d, after_d)
     evs = [e[1:] for e in env.raw1]
     prefix = None
-    if complaint is None:
+    if env.silent:
+        # nobody listens: contents, return value, exception class and failure
+        # atomicity (all judged above) are all there is to observe
+        ctx.count("silent_evaluations")
+        if rr[0] == "exc":
+            ctx.count("silent_failures_checked")
+            if bad and len(ks) > 1:
+                ctx.count("silent_bulk_rejections_checked")
+        if env.td.notifiers and complaint is None:
+            complaint = "notifier-appeared-on-silent-dict"
+    if env.copied:
+        ctx.count("ops_on_copies")
+    if complaint is None and not env.silent:
         if any(not e[0] for e in env.raw1 + env.raw2):
             complaint = "notifier-got-another-dict"
         elif env.has_raw2:
@@ -556,7 +602,7 @@ def check_one(ctx, env, model, op):
                     for x, y in zip(evs, e2)):
                 prefix = "notifier-order"
                 complaint = "raw-args-differ-between-notifiers"
-    if complaint is None:
+    if complaint is None and not env.silent:
         if changed and len(evs) != 1:
             complaint = "changed-with-%s-events" % ("no" if not evs else "several")
         else:
@@ -593,19 +639,66 @@ def check_one(ctx, env, model, op):
         evshape = tuple((min(len(r), 2), min(len(a), 2), min(len(c), 2)) for r, a, c in evs[:2])
         ctx.sig(flavour, op_name(op), arg_shape(op), min(len(before), 3),
                 rr[0] if rr[0] == "ok" else rr[1].__name__, evshape, bad_k, bad_v,
-                env.n_obs, env.after_observer)
+                env.n_obs, env.after_observer, env.silent, env.copied)
     if complaint:
         key = "%s/%s" % (prefix or op_name(op), complaint)
         ctx.violation(
             key, "%s on %s dict: op=%r model=%r real=%r raw1=%r raw2=%r observers=%r before=%r "
-                 "after=%r (observers=%d, 2nd raw notifier after an observer: %s)"
+                 "after=%r (observers=%d, 2nd raw notifier after an observer: %s, no notifier "
+                 "attached: %s, dict is a copy: %s)"
             % (complaint, flavour, op, rm, rr, env.raw1[:2], env.raw2[:2],
-               [lg[:2] for lg in env.obs_logs], before, after, env.n_obs, env.after_observer),
+               [lg[:2] for lg in env.obs_logs], before, after, env.n_obs, env.after_observer,
+               env.silent, env.copied),
             {"flavour": flavour, "before": before, "op": op, "raw1": env.raw1[:3],
              "raw2": env.raw2[:3], "observer_events": [lg[:3] for lg in env.obs_logs],
              "after": after, "model_outcome": rm, "real_outcome": rr,
-             "n_observers": env.n_obs, "raw2_slot": env.slot})
+             "n_observers": env.n_obs, "raw2_slot": env.slot, "silent": env.silent,
+             "copied": env.copied})
     return complaint
+
+
+# -- copies -------------------------------------------------------------------------
+COPY_MODES = [("copy", None), ("deepcopy", None)] + \
+             [("pickle", p) for p in range(pickle.HIGHEST_PROTOCOL + 1)]
+
+
+def do_copy(td, mode, proto):
+    if mode == "copy":
+        return copy.copy(td)
+    if mode == "deepcopy":
+        return copy.deepcopy(td)
+    return pickle.loads(pickle.dumps(td, proto))
+
+
+def continue_on_copy(ctx, env, model, mode, proto, silent):
+    """Copy env.td and return (Env, model) for the copy, or None when the copy
+    cannot serve as the main object.  The property says nothing about copying, so
+    nothing is judged here: an unusable copy is counted, not reported.  Copies
+    drop the transient notifiers and keep the validators, so a copy is the other
+    way (besides never attaching one) to get a validating dict nobody listens to."""
+    flavour = env.flavour
+    ctx.count("copies_taken")
+    try:
+        c = do_copy(env.td, mode, proto)
+    except Exception:
+        ctx.count("copies_unusable")
+        return None
+    ok = type(c) is TraitDict and c is not env.td and not c.notifiers
+    if ok and flavour != "none":
+        ok = c.key_validator is KV[flavour] and c.value_validator is VV[flavour]
+    if ok:
+        mine, theirs = list(model.items()), list(c.items())
+        ok = len(mine) == len(theirs) and all(
+            key_same(a[0], b[0]) and (a[1] is b[1] or repr(a[1]) == repr(b[1]))
+            for a, b in zip(mine, theirs))
+    if not ok:
+        ctx.count("copies_unusable")
+        return None
+    ctx.count("copies_continued")
+    ctx.count("copies_continued_" + ("silent" if silent else "recorded"))
+    ctx.sig("copy", flavour, mode, proto, min(len(model), 3), silent)
+    cenv = Env(flavour, (), 0, "first", silent=silent, td=c)
+    return cenv, dict(c.items())          # deep copies hold new value objects
 
 
 # -- generators -----------------------------------------------------------------
@@ -778,6 +871,19 @@ def run(ctx):
                         model = dict(state)
                         check_one(ctx, env, model, op)
                         ctx.count("exhaustive_cases")
+                    if flavour != "tdo":
+                        # nobody listening: never had a notifier / a fresh copy
+                        env = Env(flavour, state, 0, "first", silent=True)
+                        check_one(ctx, env, dict(state), op)
+                        ctx.count("exhaustive_cases")
+                        ctx.count("exhaustive_silent_cases")
+                        mode, proto = COPY_MODES[g % len(COPY_MODES)]
+                        env = Env(flavour, state, 0, "first", ctor_notifier=True)
+                        got = continue_on_copy(ctx, env, dict(state), mode, proto, True)
+                        if got:
+                            check_one(ctx, got[0], got[1], op)
+                            ctx.count("exhaustive_cases")
+                            ctx.count("exhaustive_silent_cases")
                 if batch:
                     ctx.sample({"flavour": flavour, "start": state, "op": batch[len(batch) // 2][1]})
             finally:
@@ -804,11 +910,30 @@ def run(ctx):
             uni = validated_universe(flavour)
             rng.shuffle(uni)
             state = [(k, V(i)) for i, k in enumerate(uni[:rng.randint(0, 4)])]
-            env = Env(flavour, state, n_obs, slot, ctor_notifier=rng.random() < 0.5)
+            # nobody-listening ingredients (bare flavours only: a TraitDictObject
+            # always carries its own notifier and its copies are detached)
+            silent = flavour != "tdo" and n_obs == 0 and rng.random() < 0.35
+            copy_at, mode, proto, copy_silent = -1, None, None, False
+            if flavour != "tdo" and rng.random() < 0.4:
+                copy_at = rng.randint(0, 14)
+                mode, proto = COPY_MODES[0] if rng.random() < 0.2 else \
+                    COPY_MODES[1] if rng.random() < 0.25 else rng.choice(COPY_MODES[2:])
+                copy_silent = rng.random() < 0.7
+            if silent:
+                env = Env(flavour, state, 0, "first", silent=True)
+                ctx.count("histories_started_silent")
+            else:
+                env = Env(flavour, state, n_obs, slot, ctor_notifier=rng.random() < 0.5)
             model = dict(state)
             ops = []
             ctx.count("histories_" + stratum)
             for step in range(20):
+                if step == copy_at:
+                    got = continue_on_copy(ctx, env, model, mode, proto, copy_silent)
+                    ops.append(("<continue-on-copy>", mode, proto, copy_silent, got is not None))
+                    if got is None:
+                        break
+                    env, model = got
                 op = random_op(rng, flavour, model, stratum == "collide")
                 ops.append(op)
                 ctx.count("history_ops")
@@ -816,6 +941,7 @@ def run(ctx):
                     break
             if h < 3 * ctx.nshards:
                 ctx.sample({"flavour": flavour, "stratum": stratum, "observers": n_obs,
-                            "raw2_slot": slot, "start": state, "history": ops[:6]})
+                            "raw2_slot": slot, "silent": silent, "start": state,
+                            "history": ops[:6]})
         finally:
             ctx.end()
